@@ -228,6 +228,12 @@ def gen_layout(rng):
     # references may be written percent-encoded (the only way to name a file with a blank in an
     # 'extends' list)
     L["quoted"] = rng.random() < 0.5
+    # the top schema and the base it extends each import "the same" relative name, which in the
+    # two directories denotes two different files
+    if rng.random() < 0.35:
+        L["types"]["dir"] = "top"
+        L["base1"]["dir"] = rng.choice(["child", "root", "sibling"])
+        L["types2"] = {"dir": L["base1"]["dir"], "name": L["types"]["name"]}
     # 'extends' is a blank-separated list: keep blanks out of those two references (unless they
     # are written percent-encoded)
     if not L["quoted"] and any(c.isspace() for c in rel(L, "schema", "base1") + rel(L, "base1", "base2")):
@@ -240,6 +246,10 @@ def gen_layout(rng):
             L[k]["name"] = "z" + L[k]["name"]
             key = (L[k]["dir"], L[k]["name"].lower())
         seen.add(key)
+    if "types2" in L:
+        key = (L["types2"]["dir"], L["types2"]["name"].lower())
+        if key in seen or L["base1"]["dir"] == "top":
+            del L["types2"]      # the name is taken in that directory
     return L
 
 
@@ -287,10 +297,14 @@ def _layout_files(L, f):
     rel = qrel  # noqa
     return {
         "base2": '<schema>\n  <key name="b2" default="two"/>\n</schema>\n',
-        "base1": '<schema extends=%s>\n  <key name="b1" default="one"/>\n</schema>\n'
-                 % xml_attr(rel(L, "base1", "base2") + f("extends2")),
+        "base1": '<schema extends=%s>\n%s  <key name="b1" default="one"/>\n</schema>\n'
+                 % (xml_attr(rel(L, "base1", "base2") + f("extends2")),
+                    ('  <import src=%s/>\n  <multisection type="ts2" name="*" attribute="secs2"/>\n'
+                     % xml_attr(rel(L, "base1", "types2"))) if "types2" in L else ""),
         "types": '<schema>\n  <sectiontype name="ts"><key name="k" datatype="integer"/></sectiontype>\n</schema>\n',
         "base3": '<schema>\n  <key name="b3" default="three"/>\n</schema>\n',
+        **({"types2": '<schema>\n  <sectiontype name="ts2"><key name="k2" datatype="integer" default="5"/></sectiontype>\n</schema>\n'}
+           if "types2" in L else {}),
         "schema": '<schema extends=%s>\n  <import src=%s/>\n  <multisection type="ts" name="*" attribute="secs"/>\n'
                   '  <multikey name="m" attribute="m"/>\n</schema>\n'
                   % (xml_attr(rel(L, "schema", "base1") + f("extends") + " " + rel(L, "schema", "base3") + f("extends-last")),
